@@ -2,6 +2,7 @@
 package c11
 
 import (
+	"sync/atomic"
 	"context"
 	"errors"
 	"fmt"
@@ -50,6 +51,8 @@ type round struct {
 	// WrapEED: the callback's error passes on the failure of an earlier exchange: it wraps an
 	// *EEDError carrying messages that do not belong to this response
 	WrapEED bool `json:"callback_error_wraps_a_foreign_eed_error"`
+	// BadReg: before this response hooks are registered with a nil function among them (refused)
+	BadReg bool `json:"refused_registration_first"`
 }
 
 type c11Case struct {
@@ -94,7 +97,21 @@ func runCase(c c11Case) (f *vh.Failure) {
 	nEED, nEnv := 0, 0
 	packetSize := 512
 	nontrivial := false
+	var rejectedCalled atomic.Int32
 	for ri, r := range c.Rounds {
+		if r.BadReg {
+			// a registration that is refused (one of the functions is nil) registers nothing:
+			// the functions handed over with it are never called
+			stray := func(tds.EEDPackage) { rejectedCalled.Add(1) }
+			strayEnv := func(tds.EnvChangeType, string, string) { rejectedCalled.Add(1) }
+			if err := ch.RegisterEEDHooks(stray, nil, stray); err == nil {
+				return vh.Failf("C11/register", "RegisterEEDHooks(f, nil, f) returned no error")
+			}
+			if err := ch.RegisterEnvChangeHooks(strayEnv, strayEnv, nil); err == nil {
+				return vh.Failf("C11/register", "RegisterEnvChangeHooks(f, f, nil) returned no error")
+			}
+			vh.Label("refused-registration-before-the-response")
+		}
 		for i := 0; i < r.NewEEDHooks; i++ {
 			id := nEED
 			nEED++
@@ -388,6 +405,9 @@ func runCase(c c11Case) (f *vh.Failure) {
 		}
 		vh.LabelN("eed-hook-calls", len(eeds)*nEED)
 		vh.LabelN("env-hook-calls", len(members)*nEnv)
+		if n := rejectedCalled.Load(); n != 0 {
+			return vh.Failf("C11/hook-of-refused-registration-called", "%s: functions handed over with a refused registration (a nil function among them) were called %d times", where, n)
+		}
 	}
 	if nontrivial {
 		vh.NonTrivial(fmt.Sprintf("%+v", c))
@@ -414,6 +434,7 @@ func TestHooks(t *testing.T) {
 				r.NewEEDHooks = rapid.IntRange(0, 3).Draw(rt, "eedhooks0")
 				r.NewEnvHooks = rapid.IntRange(0, 3).Draw(rt, "envhooks0")
 			}
+			r.BadReg = rapid.IntRange(0, 3).Draw(rt, "badreg") == 0
 			r.Pkgs = respgen.Gen(rt, respgen.Opts{MaxStatements: 3, MaxEED: 6, MaxEnv: 3, PackSizes: true})
 			stream, _, _, _ := rc.EncodeStream(r.Pkgs)
 			r.Cuts = respgen.Cuts(rt, len(stream), true)
